@@ -270,7 +270,8 @@ def universes(tier):
                     return t
                 ftt = sub(ft)
                 add(TypeDef(nm(), "struct", [{"name": "holder", "ty": ftt}, {"name": "n", "ty": "u8"}]), inner, desc="struct(%s of %s)" % (ft[0], iname))
-                for tagging in ("external", "adjacent", "untagged"):
+                taggings = ("external", "adjacent", "untagged") + (("internal",) if (iname == "InS" and ft == ("ref", None)) else ())
+                for tagging in taggings:
                     inner2 = mk(nm().replace("T", "In"))
                     ftt2 = ("ref", inner2.name) if ft == ("ref", None) else (ft[0], ("ref", inner2.name))
                     add(TypeDef(nm(), "enum", variants=[{"name": "Holds", "kind": "newtype", "tys": [ftt2]}, {"name": "Other", "kind": "struct", "fields": [{"name": "flag", "ty": "bool"}]}],
@@ -384,6 +385,13 @@ def build_origin(unis, tier):
     return exe, json.loads(p.stdout.decode()), d
 
 
+def _safe_source(root):
+    try:
+        return root.source({})[:1500]
+    except KeyError:
+        return root.desc   # refers to an inner type; the description names the shape
+
+
 def cases(tier, seed):
     unis = universes(tier)
     return [{"name": u[-1].name, "desc": u[-1].desc, "key": key_of(["C04", tier, u[-1].name, u[-1].desc])} for u in unis]
@@ -448,7 +456,7 @@ def execute(cases_, tier, seed):
     for (root, route, idxs), wc in zip(owner, wcs):
         res.transitions += 1
         feats = {"desc": root.desc, "route": route}
-        c = {"name": root.name, "desc": root.desc, "key": key_of(["C04", tier, root.name, root.desc]), "schema": wc.placed["doc"], "rust": root.source({})[:1500] if not root.desc.startswith(("struct(", "enum:external(", "enum:adjacent(", "enum:untagged(")) else root.desc}
+        c = {"name": root.name, "desc": root.desc, "key": key_of(["C04", tier, root.name, root.desc]), "schema": wc.placed["doc"], "rust": _safe_source(root)}
         if wc.compiled is None:
             res.violations.append(Violation(c["key"], "rejected:" + route, "%s: schemars schema not ingested via %s route: %s" % (wc.id, route, wc.ingest), c,
                                             expected="ingest ok", observed={"ingest": wc.ingest, "ops": (wc.answer or {}).get("ops")}, features=feats))
